@@ -138,6 +138,11 @@ def run_inproc(argv, world_json=None, trace=None, plan=None, cwd=None,
             os.environ[k] = str(v)
     vtrace.reset()
     vworld_rt.forget_worlds()
+    try:
+        import ztr_monitor
+        ztr_monitor.reset_run_state()
+    except ImportError:
+        pass
     lock = threading.Lock()
     rec_out = Recorder(res.log, 'out', lock)
     rec_err = Recorder(res.log, 'err', lock)
